@@ -6,7 +6,7 @@
 From Coq Require Import List NArith Lia Bool.
 From Coq Require Import ZifyBool ZifyN ZifyNat.
 From Minimq Require Import Bytes Varint Utf8 Props Ser De Reader Arena Core Show Machine Parse Run.
-From Minimq Require Import Util Lts Refine Inv Status Frames WireInv Wire Measure Terminate KeepAlive ConnectOk.
+From Minimq Require Import Util Lts Refine Inv Status Frames WireInv Wire Measure Terminate KeepAlive ConnectOk PingQuiet.
 Import ListNotations.
 Open Scope N_scope.
 
@@ -106,13 +106,6 @@ Proof.
 Qed.
 
 (* ---------- a behaving transport ---------- *)
-Lemma broker_feed_fields : forall w a, w_sess (broker_feed w a) = w_sess w /\ w_script (broker_feed w a) = w_script w /\
-  w_live (broker_feed w a) = w_live w /\ w_now (broker_feed w a) = w_now w /\ w_wire (broker_feed w a) = w_wire w.
-Proof.
-  intros w a. unfold broker_feed. destruct (N.eqb (w_broker w) 0); [repeat split|].
-  destruct (broker_split _ _ _ _) as [replies rest]. destruct replies; repeat split.
-Qed.
-
 Lemma io_write_healthy : forall w bs, w_script w = [] -> bs <> [] -> lenN bs <= BIG ->
   exists w1, io_write bs w = (w1, WOk (lenN bs)) /\
     w_sess w1 = w_sess w /\ w_script w1 = [] /\ w_live w1 = w_live w /\ w_now w1 = w_now w /\ w_wire w1 = w_wire w ++ bs.
@@ -229,32 +222,22 @@ Qed.
 Lemma prepare_flush : forall s st, step_state st = SFlush -> prepare_step s st = PFlush (step_key st).
 Proof. intros s st Hs. destruct st as [a s0|pid rc s0|pid off l s0]; cbn [step_state] in Hs; subst s0; reflexivity. Qed.
 
-Definition ka_ok (r : runtime) : Prop := rt_ka_ms r = 0 \/ 2 <= rt_ka_ms r.
-
-Lemma noa_np : forall r now, ka_ok r -> forall d, rt_next_ping (note_outbound_activity r now) = Some d -> now < d.
-Proof.
-  intros r now H d E. unfold note_outbound_activity, keepalive_send_interval in E. cbn [rt_with_timers rt_next_ping] in E.
-  destruct (N.eqb_spec (rt_ka_ms r) 0) as [E0|E0]; [discriminate|]. destruct H as [H|H]; [contradiction|].
-  inversion E. unfold ROUND_TRIP_TIMEOUT_MS.
-  assert (rt_ka_ms r / 2 < rt_ka_ms r) by (apply N.div_lt; lia). lia.
-Qed.
-
-(* the invariant of the healthy drive; the ping timeout, if one is armed by flushing a leftover PINGREQ, lies ahead *)
-Definition Hd (w : world) : Prop :=
+(* the invariant of the healthy drive.  Hc: its transport-and-queue part; PQ (PingQuiet.v): no PINGREQ is to be queued now;
+   the ping timeout, if one is armed by flushing a PINGREQ, lies ahead *)
+Definition Hc (w : world) : Prop :=
   w_script w = [] /\ w_live w = true /\ WInv (w_sess w) /\ rt_mps (s_rt (w_sess w)) = None /\
-  (forall d, rt_next_ping (s_rt (w_sess w)) = Some d -> w_now w < d) /\ ka_ok (s_rt (w_sess w)) /\
   (forall d, rt_ping_timeout (s_rt (w_sess w)) = Some d -> w_now w < d) /\
   lenN (ob_buf (s_ob (w_sess w))) <= BIG /\ Fr (s_ob (w_sess w)).
+Definition Hd (w : world) : Prop := Hc w /\ PQ w.
 
-Lemma complete_flush_rt : forall s k now, ka_ok (s_rt s) -> rt_mps (s_rt s) = None ->
+Lemma complete_flush_rt : forall s k now, rt_mps (s_rt s) = None ->
   (forall d, rt_ping_timeout (s_rt s) = Some d -> now < d) ->
   let s' := fst (complete_flush s k now) in
-  rt_mps (s_rt s') = None /\ (forall d, rt_next_ping (s_rt s') = Some d -> now < d) /\ ka_ok (s_rt s') /\
-  (forall d, rt_ping_timeout (s_rt s') = Some d -> now < d) /\ lenN (ob_buf (s_ob s')) = lenN (ob_buf (s_ob s)).
+  rt_mps (s_rt s') = None /\ (forall d, rt_ping_timeout (s_rt s') = Some d -> now < d) /\
+  lenN (ob_buf (s_ob s')) = lenN (ob_buf (s_ob s)).
 Proof.
-  intros s k now Hk Hm Hp. unfold complete_flush.
+  intros s k now Hm Hp. unfold complete_flush.
   set (r1 := match k with FCtl CPing => rt_with_timers (s_rt s) (rt_next_ping (s_rt s)) (Some (now + ROUND_TRIP_TIMEOUT_MS)) | _ => s_rt s end).
-  assert (K1 : ka_ok r1) by (unfold r1; destruct k as [[| | |]| |]; exact Hk).
   assert (M1 : rt_mps r1 = None) by (unfold r1; destruct k as [[| | |]| |]; exact Hm).
   assert (P1 : forall d, rt_ping_timeout r1 = Some d -> now < d).
   { unfold r1. destruct k as [[| | |]| |]; try exact Hp. intros d E. cbn [rt_with_timers rt_ping_timeout] in E. inversion E. unfold ROUND_TRIP_TIMEOUT_MS. lia. }
@@ -262,15 +245,7 @@ Proof.
   { destruct k as [a|pid|pid]; [unfold flush_control|unfold flush_release|unfold flush_retained];
       destruct (update_first _ _ _) as [l0 b]; reflexivity. }
   destruct (match k with FCtl a => flush_control (s_ob s) a | FRel pid => flush_release (s_ob s) pid | FRet pid => flush_retained (s_ob s) pid end) as [o b].
-  cbn [fst] in *. cbn [set_rt set_ob s_rt s_ob]. split; [exact M1|]. split; [apply noa_np; exact K1|]. split; [exact K1|]. split; [exact P1|exact B].
-Qed.
-
-Lemma set_written_fields : forall s k x len,
-  s_rt (fst (set_written s k x len)) = s_rt s /\ lenN (ob_buf (s_ob (fst (set_written s k x len)))) = lenN (ob_buf (s_ob s)).
-Proof.
-  intros. unfold set_written. destruct k as [a|pid|pid];
-    [unfold set_control_written|unfold set_release_written|unfold set_retained_written];
-    destruct (update_first _ _ _) as [l0 b]; split; reflexivity.
+  cbn [fst] in *. cbn [set_rt set_ob s_rt s_ob]. split; [exact M1|]. split; [exact P1|exact B].
 Qed.
 
 Lemma prepared_len_small : forall s st bs len, WInv s -> lenN (ob_buf (s_ob s)) <= BIG ->
@@ -288,11 +263,13 @@ Proof.
     pose proof (wf_layout_bound _ _ _ _ Wl Hi). rewrite Hlen. lia.
 Qed.
 
-Theorem healthy_perform : forall st w, Hd w -> next_step (s_ob (w_sess w)) = Some st ->
-  exists w', perform_outbound_step st (w_now w) w = (w', ODone true) /\ Hd w' /\
-    s_reader (w_sess w') = s_reader (w_sess w) /\ w_now w' = w_now w.
+Theorem healthy_perform_core : forall st w, Hc w -> next_step (s_ob (w_sess w)) = Some st ->
+  exists w', perform_outbound_step st (w_now w) w = (w', ODone true) /\ Hc w' /\
+    s_reader (w_sess w') = s_reader (w_sess w) /\ w_now w' = w_now w /\
+    (step_state st = SWrite 0 -> exists len,
+       w_sess w' = fst (complete_flush (fst (set_written (w_sess w) (step_key st) (0 + len) len)) (step_key st) (w_now w))).
 Proof.
-  intros st w [Hs [Hl [I [Hm [Hnp [Hk [Hpt [HB HF]]]]]]]] Hn.
+  intros st w [Hs [Hl [I [Hm [Hpt [HB HF]]]]]] Hn.
   assert (Hwq : WInv (w_sess (fst (perform_outbound_step st (w_now w) w)))).
   { eapply WInv_wq; [apply perform_outbound_step_wq; exact Hn|exact I]. }
   pose proof (has_key_step _ _ Hn) as Hkey.
@@ -318,17 +295,18 @@ Proof.
     destruct (complete_flush s2 (step_key st) (w_now w)) as [s3 f3] eqn:E3. cbn [snd] in Hf3. subst f3.
     assert (Es3 : s3 = fst (complete_flush s2 (step_key st) (w_now w))) by now rewrite E3.
     destruct (set_written_fields (w_sess w) (step_key st) (0 + len) len) as [Rt2 Bf2]. rewrite <- Es2 in Rt2, Bf2.
-    destruct (complete_flush_rt s2 (step_key st) (w_now w) ltac:(rewrite Rt2; exact Hk) ltac:(rewrite Rt2; exact Hm)
-                ltac:(rewrite Rt2; exact Hpt)) as [M3 [P3 [K3 [T3 B3]]]]. rewrite <- Es3 in M3, P3, K3, T3, B3.
+    destruct (complete_flush_rt s2 (step_key st) (w_now w) ltac:(rewrite Rt2; exact Hm)
+                ltac:(rewrite Rt2; exact Hpt)) as [M3 [T3 B3]]. rewrite <- Es3 in M3, T3, B3.
     eexists. split; [reflexivity|]. cbn [fst] in Hwq. split.
     + assert (Lv : w_live w2 = true) by (rewrite L2; cbn [w_live upd_sess]; exact L1).
       assert (Nw : w_now w2 = w_now w) by (rewrite N2; cbn [w_now upd_sess]; exact N1).
-      unfold Hd. cbn [w_script w_live w_sess w_now upd_sess]. rewrite C2, Lv, Nw.
-      split; [reflexivity|]. split; [reflexivity|]. split; [exact Hwq|]. split; [exact M3|]. split; [exact P3|]. split; [exact K3|].
+      unfold Hc. cbn [w_script w_live w_sess w_now upd_sess]. rewrite C2, Lv, Nw.
+      split; [reflexivity|]. split; [reflexivity|]. split; [exact Hwq|]. split; [exact M3|].
       split; [exact T3|]. split; [rewrite B3, Bf2; exact HB|].
       rewrite Es3. apply Fr_complete_flush. rewrite Es2. apply Fr_set_written_full. exact HF.
     + cbn [w_sess w_now upd_sess]. split; [rewrite Es3, complete_flush_reader, Es2, set_written_reader; reflexivity|].
-      rewrite N2. cbn [w_now upd_sess]. exact N1.
+      split; [rewrite N2; cbn [w_now upd_sess]; exact N1|].
+      intros _. exists len. rewrite Es3, Es2. reflexivity.
   - (* written, awaiting its flush *)
     rewrite (prepare_flush (w_sess w) st Hst) in *.
     unfold flush_current in *. rewrite Hl in *. cbn [negb] in *.
@@ -336,12 +314,23 @@ Proof.
     pose proof (complete_flush_found (w_sess w) (step_key st) (w_now w) Hkey) as Hf3.
     destruct (complete_flush (w_sess w) (step_key st) (w_now w)) as [s3 f3] eqn:E3. cbn [snd] in Hf3. subst f3.
     assert (Es3 : s3 = fst (complete_flush (w_sess w) (step_key st) (w_now w))) by now rewrite E3.
-    destruct (complete_flush_rt (w_sess w) (step_key st) (w_now w) Hk Hm Hpt) as [M3 [P3 [K3 [T3 B3]]]]. rewrite <- Es3 in M3, P3, K3, T3, B3.
+    destruct (complete_flush_rt (w_sess w) (step_key st) (w_now w) Hm Hpt) as [M3 [T3 B3]]. rewrite <- Es3 in M3, T3, B3.
     eexists. split; [reflexivity|]. cbn [fst] in Hwq. split.
-    + unfold Hd. cbn [w_script w_live w_sess w_now upd_sess]. rewrite C1, L1, N1, Hl.
-      split; [reflexivity|]. split; [reflexivity|]. split; [exact Hwq|]. split; [exact M3|]. split; [exact P3|]. split; [exact K3|].
+    + unfold Hc. cbn [w_script w_live w_sess w_now upd_sess]. rewrite C1, L1, N1, Hl.
+      split; [reflexivity|]. split; [reflexivity|]. split; [exact Hwq|]. split; [exact M3|].
       split; [exact T3|]. split; [rewrite B3; exact HB|]. rewrite Es3. apply Fr_complete_flush. exact HF.
-    + cbn [w_sess w_now upd_sess]. split; [rewrite Es3, complete_flush_reader; reflexivity|exact N1].
+    + cbn [w_sess w_now upd_sess]. split; [rewrite Es3, complete_flush_reader; reflexivity|]. split; [exact N1|].
+      intros E. rewrite Hst in E. discriminate E.
+Qed.
+
+Theorem healthy_perform : forall st w, Hd w -> next_step (s_ob (w_sess w)) = Some st ->
+  exists w', perform_outbound_step st (w_now w) w = (w', ODone true) /\ Hd w' /\
+    s_reader (w_sess w') = s_reader (w_sess w) /\ w_now w' = w_now w.
+Proof.
+  intros st w [Hcw Hq] Hn. destruct (healthy_perform_core st w Hcw Hn) as [w' [E [Hc' [R [N _]]]]].
+  exists w'. split; [exact E|]. split; [|split; assumption]. split; [exact Hc'|].
+  assert (I : WInv (w_sess w)) by (destruct Hcw as [_ [_ [I _]]]; exact I).
+  exact (proj1 (step_pq _ _ _ _ I Hn Hq E Logic.I)).
 Qed.
 
 Lemma upd_sess_id : forall w, upd_sess w (w_sess w) = w.
@@ -350,13 +339,10 @@ Proof. intros w. destruct w; reflexivity. Qed.
 Lemma Hd_service : forall w, Hd w ->
   ping_timed_out (w_sess w) (w_now w) = false /\ maybe_queue_pingreq (w_sess w) (w_now w) = (w_sess w, None).
 Proof.
-  intros w [_ [_ [_ [_ [Hnp [_ [Hpt _]]]]]]]. split.
+  intros w [[_ [_ [_ [_ [Hpt _]]]]] Hq]. split.
   - unfold ping_timed_out. destruct (rt_ping_timeout (s_rt (w_sess w))) as [d|] eqn:E; [|reflexivity].
     specialize (Hpt d eq_refl). apply N.leb_gt. exact Hpt.
-  - unfold maybe_queue_pingreq, should_queue_pingreq.
-    assert (Hdue : match rt_next_ping (s_rt (w_sess w)) with Some d => d <=? w_now w | None => false end = false).
-    { destruct (rt_next_ping (s_rt (w_sess w))) as [d|] eqn:En; [|reflexivity]. specialize (Hnp d eq_refl). apply N.leb_gt. exact Hnp. }
-    rewrite Hdue. rewrite andb_false_r. reflexivity.
+  - exact (pq_no_ping w Hq).
 Qed.
 
 Theorem drive_loop_drains : forall fuel adv w, Hd w -> NA w -> M (w_sess w) < N.of_nat fuel ->
@@ -371,7 +357,7 @@ Proof.
   destruct (Hd_service w Hh) as [Ht Hq]. unfold service. rewrite Ht, Hq. rewrite upd_sess_id.
   destruct (next_step (s_ob (w_sess w))) as [st|] eqn:En.
   - destruct (healthy_perform st w Hh En) as [w2 [E2 [H2 [R2 N2]]]]. rewrite E2.
-    assert (I : WInv (w_sess w)) by (destruct Hh as [_ [_ [I _]]]; exact I).
+    assert (I : WInv (w_sess w)) by (destruct Hh as [[_ [_ [I _]]] _]; exact I).
     pose proof (step_M _ _ _ _ I En E2) as Hdec.
     assert (Na2 : NA w2) by (unfold NA; rewrite R2; exact Hna).
     destruct (next_step (s_ob (w_sess w2))) as [st2|] eqn:En2.
@@ -387,7 +373,7 @@ Theorem drive_sends_all : forall fuel w, Hd w -> NA w -> M (w_sess w) < N.of_nat
   exists w', op_drive fuel w = (w', ODone None) /\ next_step (s_ob (w_sess w')) = None /\ Hd w' /\ NA w'.
 Proof.
   intros fuel w Hh Hna Hm. unfold op_drive, drive_packet.
-  assert (Hl : w_live w = true) by (destruct Hh as [_ [Hl _]]; exact Hl). rewrite Hl. cbn [negb].
+  assert (Hl : w_live w = true) by (destruct Hh as [[_ [Hl _]] _]; exact Hl). rewrite Hl. cbn [negb].
   destruct (drive_loop_drains fuel false w Hh Hna Hm) as [w' [pr [E [Hpr [Hn [Hd' [Na' _]]]]]]]. rewrite E.
   exists w'. split; [rewrite Hpr; destruct (false || _); reflexivity|]. split; [exact Hn|]. split; [exact Hd'|exact Na'].
 Qed.
@@ -397,7 +383,7 @@ Theorem poll_sends_all : forall fuel w st, Hd w -> NA w -> next_step (s_ob (w_se
   exists w', op_poll (S fuel) w = (w', ODone None) /\ next_step (s_ob (w_sess w')) = None /\ Hd w' /\ NA w'.
 Proof.
   intros fuel w st Hh Hna Hn Hm. unfold op_poll. cbn [wait_for_progress]. unfold drive_packet.
-  assert (Hl : w_live w = true) by (destruct Hh as [_ [Hl _]]; exact Hl). rewrite Hl. cbn [negb].
+  assert (Hl : w_live w = true) by (destruct Hh as [[_ [Hl _]] _]; exact Hl). rewrite Hl. cbn [negb].
   destruct (drive_loop_drains (S fuel) false w Hh Hna Hm) as [w' [pr [E [Hpr [Hn' [Hd' [Na' _]]]]]]]. rewrite E.
   rewrite Hn in Hpr. cbn [orb] in Hpr. subst pr. exists w'. split; [reflexivity|]. split; [exact Hn'|]. split; [exact Hd'|exact Na'].
 Qed.
